@@ -22,6 +22,8 @@ func init() {
 	})
 	ruleText["R16.1"] = "in importSrc: (a) the srcPkg early return dominates every file access and run; (b) the test of Interpreter.rdir[importPath] (returning an import-cycle error) dominates the store rdir[importPath] = true, which dominates fs.ReadDir and every call that can recurse (parse/gta/gtaRetry/cfg); (c) on the relative-import branch the directory derives from filepath.Dir(interp.name)"
 	ruleText["R16.2"] = "in pkgDir the fs.Stat of the candidate containing the vendor directory precedes (dominates) the fs.Stat of the plain candidate, each successful Stat returns its own candidate, and the recursive call takes the root computed by previousRoot; in previousRoot, under root != mainID && final != vendor, no return with a nil error is reachable from the entry without passing a block that calls fs.Stat"
+	ruleText["R16.6"] = "in importSrc the root handed to the global type analysis of the package (the root its own imports are resolved from) originates (SSA) only in effectivePkg or filepath.Rel: a path obtained by trimming a prefix is relative only while the prefix matches"
+	ruleText["R16.7"] = "in importSrc the key of the import-once table (srcPkg) identifies the directory the import resolves to: it is not the bare import path, which is relative to the importer (./util from two directories, one directory under two spellings, one path vendored twice)"
 	ruleText["R16.4"] = "in importSrc the first argument of effectivePkg originates (SSA) only in the second result of a pkgDir call (possibly through an in-package helper), the root parameter or a constant"
 	ruleText["R16.5"] = "in the loop of previousRoot that calls fs.Stat on Join(<dir>, vendor), every break decided by a comparison with the source root (prefix) compares <dir> itself"
 	ruleText["R16.3"] = "every file-system access in the functions reachable from importSrc within package interp is an io/fs function whose first argument is loaded from Interpreter.opt.filesystem; no os.Open/ReadFile/Stat/ReadDir or io/ioutil access"
@@ -39,6 +41,8 @@ func runC16(c *Config, r *Report) {
 	c16R2b(ic, r)
 	c16R3(ic, r)
 	c16R4(ic, r)
+	c16R6(ic, r)
+	c16R7(ic, r)
 	c16R5(ic, r)
 }
 
@@ -708,7 +712,7 @@ func c16R5(ic *IC, r *Report) {
 		}
 		// the walked directory: first argument of filepath.Join inside the fs.Stat call
 		var dir types.Object
-		for _, c := range callsIn(info, loop.Body, false, "io/fs.Stat") {
+		for _, c := range callsIn(info, loop.Body, false, "io/fs.Stat", "os.Stat", "os.Lstat") {
 			for _, j := range callsIn(info, c, true, "path/filepath.Join") {
 				if len(j.Args) > 0 {
 					if id := identOf(j.Args[0]); id != nil {
@@ -758,5 +762,101 @@ func c16R5(ic *IC, r *Report) {
 	})
 	if n == 0 {
 		r.Errorf("R16.5: no break decided by a comparison with the source root found in the ancestor walk of previousRoot")
+	}
+}
+
+// c16R6: the root under which the imports of the package being loaded are resolved is what
+// importSrc hands to gta (second parameter). A relative import resolves to
+// Dir(input file)/root/importPath, so the root of a package reached through "../x" must keep
+// its ".." elements: effectivePkg joins the import path to the importer's root, filepath.Rel
+// computes them; strings.TrimPrefix(dir, base) yields a relative path only while dir lies
+// below base (round-5 seed: a chain of two relative imports, the first leaving the directory
+// of the input file).
+func c16R6(ic *IC, r *Report) {
+	fn := ic.ssaMeth("Interpreter", "importSrc")
+	gta := ic.ssaMeth("Interpreter", "gta")
+	if fn == nil || gta == nil {
+		r.Errorf("anchor not resolved: (*Interpreter).importSrc / gta (SSA)")
+		return
+	}
+	n := 0
+	for _, b := range fn.Blocks {
+		for _, ins := range b.Instrs {
+			call, ok := ins.(*ssa.Call)
+			if !ok || call.Call.StaticCallee() != gta || len(call.Call.Args) < 3 {
+				continue
+			}
+			n++
+			bad := ""
+			for _, o := range origins(call.Call.Args[2], map[ssa.Value]bool{}) {
+				switch x := o.(type) {
+				case *ssa.Call:
+					if c := x.Call.StaticCallee(); c != nil && ssaFuncName(c) == "effectivePkg" {
+						continue
+					}
+					bad = describeValue(o)
+				case *ssa.Extract:
+					if c, isCall := x.Tuple.(*ssa.Call); isCall && x.Index == 0 {
+						if f := c.Call.StaticCallee(); f != nil && f.Pkg != nil && f.Pkg.Pkg.Path() == "path/filepath" && f.Name() == "Rel" {
+							continue
+						}
+					}
+					bad = describeValue(o)
+				default:
+					bad = describeValue(o)
+				}
+			}
+			r.Check(bad == "", "R16.6", fmt.Sprintf("importSrc/root-handed-to-the-imports#%d", n), ic.pos(call.Pos()), "the root handed to gta comes from effectivePkg (or filepath.Rel)",
+				"the root under which importSrc resolves the imports of the package it loads (second argument of gta) can come from "+bad+": a relative import made by a package that was itself reached through ../ then resolves against another directory than the importing file's")
+		}
+	}
+	if n == 0 {
+		r.Errorf("R16.6: no call of gta found in importSrc")
+	}
+}
+
+// c16R7: identity of the import-once test. "Each package is evaluated exactly once however many
+// importers it has" and "a relative import resolves against the importing file's directory"
+// both require the key of the table of loaded packages to be a function of the directory the
+// import resolves to. A key that is the import path string as written conflates ./util of two
+// directories, and loads twice a directory reached as ./a and ../a. (K14)
+func c16R7(ic *IC, r *Report) {
+	fn := ic.ssaMeth("Interpreter", "importSrc")
+	if fn == nil {
+		r.Errorf("anchor not resolved: (*Interpreter).importSrc (SSA)")
+		return
+	}
+	n := 0
+	for _, b := range fn.Blocks {
+		for _, ins := range b.Instrs {
+			lk, ok := ins.(*ssa.Lookup)
+			if !ok {
+				continue
+			}
+			ld, ok := lk.X.(*ssa.UnOp)
+			if !ok || ld.Op != token.MUL {
+				continue
+			}
+			fa, ok := ld.X.(*ssa.FieldAddr)
+			if !ok {
+				continue
+			}
+			st, ok := fa.X.Type().Underlying().(*types.Pointer).Elem().Underlying().(*types.Struct)
+			if !ok || st.Field(fa.Field).Name() != "srcPkg" {
+				continue
+			}
+			n++
+			bare := ""
+			for _, o := range origins(lk.Index, map[ssa.Value]bool{}) {
+				if p, ok := o.(*ssa.Parameter); ok {
+					bare = p.Name()
+				}
+			}
+			r.Check(bare == "", "R16.7", "importSrc/import-once-key-identifies-the-directory", ic.pos(lk.Pos()), "the import-once key is derived from the resolved directory",
+				"importSrc tests whether a package is already loaded under the key "+bare+", the import path as written in the importing file: \"./util\" imported from two directories is one package (the second importer gets the first one's), and one directory imported as \"./a\" and \"../a\" is evaluated twice")
+		}
+	}
+	if n == 0 {
+		r.Errorf("R16.7: no lookup in Interpreter.srcPkg found in importSrc")
 	}
 }
